@@ -25,22 +25,17 @@ Proof. exact repo_rewrite_is_eager. Qed.
 Print Assumptions C13_repo_rewrite_is_eager.
 
 (* ---- structural facts extracted from the source by T1: order of the steps in the code ---- *)
-From BV Require Import Gen.Tables Proofs.StructureFacts.
+From BV Require Import Gen.Tables.
 Local Open Scope N_scope.
-Theorem C13_repo_order_cli_update :
-  ORDER_CLI_UPDATE = [
-  [95;118;97;108;105;100;97;116;101;95;114;101;108;101;97;115;101;95;116;97;103] (* _validate_release_tag *);
-  [95;118;97;108;105;100;97;116;101;95;100;97;116;101] (* _validate_date *);
-  [99;111;110;102;105;103;46;105;110;105;116] (* config.init *);
-  [95;112;97;114;115;101;95;118;99;115;95;111;112;116;105;111;110;115] (* _parse_vcs_options *);
-  [95;117;112;100;97;116;101;95;99;102;103;95;102;114;111;109;95;118;99;115] (* _update_cfg_from_vcs *);
-  [105;110;99;114;95;100;105;115;112;97;116;99;104] (* incr_dispatch *);
-  [95;105;115;95;118;97;108;105;100;95;118;101;114;115;105;111;110] (* _is_valid_version *);
-  [95;112;114;105;110;116;95;100;105;102;102] (* _print_diff *);
-  [99;111;109;109;105;116;95;109;115;103;95;116;101;109;112;108;97;116;101;46;102;111;114;109;97;116] (* commit_msg_template.format *);
-  [116;97;103;95;109;115;103;95;116;101;109;112;108;97;116;101;46;102;111;114;109;97;116] (* tag_msg_template.format *);
-  [60;105;102;32;100;114;121;58;32;114;101;116;117;114;110;62] (* <if dry: return> *);
-  [95;116;114;121;95;117;112;100;97;116;101] (* _try_update *)
-  ].
-Proof. exact repo_order_cli_update. Qed.
-Print Assumptions C13_repo_order_cli_update.
+
+(* ---- call orders extracted from the source by T1: the steps this property rests on ---- *)
+From Coq Require Import Strings.String.
+From BV Require Import Lib.StrLit Gen.Tables Proofs.OrderC13.
+Local Open Scope string_scope.
+
+(* in cli.update everything that can fail before files are written (tag resolution, increment, gate, diff, both message templates) comes before the dry return, and the real update directly after it *)
+Theorem C13_repo_order_update :
+  restrict (lits ["_update_cfg_from_vcs"; "incr_dispatch"; "_is_valid_version"; "_print_diff"; "commit_msg_template.format"; "tag_msg_template.format"; "<if dry: return>"; "_try_update"]) ORDER_CLI_UPDATE
+  = lits ["_update_cfg_from_vcs"; "incr_dispatch"; "_is_valid_version"; "_print_diff"; "commit_msg_template.format"; "tag_msg_template.format"; "<if dry: return>"; "_try_update"].
+Proof. exact c13_order_update. Qed.
+Print Assumptions C13_repo_order_update.
